@@ -89,6 +89,11 @@ def run(ck):
                     else:
                         d = lin_diff(got0, want0)
                         if d[0] == "unknown":
+                            # the same terms with other count coefficients (Bs // Bn instead of 1 / Bn ...): decided exactly on a grid of batch sizes
+                            cd = count_coeff_diff(got0, want0, {"Bs", "Bn"})
+                            if cd is not None:
+                                d = cd
+                        if d[0] == "unknown":
                             if got0 == P0 + gm * T.inv(T.sym("Bn")):
                                 d = ("coeff", "model gradient", "+1/Bn", "-1/Bn")
                             elif got0 == P0 - gm * T.inv(T.sym("Bs")):
@@ -104,7 +109,9 @@ def run(ck):
     # ------------------------------------------------------------------ R2-R4 order inside fit
     fit = prog.method("NeuralStateBase", "fit")
     fsite = fit.site()
-    cfg = CFG(fit.node)
+    from ..model import private_helper_resolver
+
+    cfg = CFG(fit.node, resolver=private_helper_resolver(prog), owner=fit.qualname)  # private stages of fit are spliced in
 
     def call_nodes(pred):
         out = []
